@@ -1,0 +1,236 @@
+//go:build verif
+
+// Contracts for the HTTP handlers of http.go (C14, C15), checked by nsqvc. Comment-only file.
+// The handlers are specified against (a) the parsed request arguments mRP / mRPErr (ghosts set by http_api.NewReqParams) and
+// (b) the ghost observation of the registry calls (mAddCalls / mLastAdd / ..., see zz_contracts_verif.go): "the effect of the
+// request is exactly these registry calls", the registry calls themselves being specified at their lock points.
+// Safety obligations (nil dereference, index bounds, type assertions, nil map writes) are generated for every handler: no
+// request can make a handler panic.
+
+package nsqlookupd
+
+// The server object is wired up (newHTTPServer; New() builds DB and opts before any listener starts).
+//@ pred mValidS(s *httpServer) := s != nil && s.nsqlookupd != nil && s.nsqlookupd.DB != nil && s.nsqlookupd.opts != nil
+//@ pred mIsErr(err error, code int, text string) := dyntype(err) == typetag("http_api.Err") && unbox(err, "http_api.Err").Code == code && unbox(err, "http_api.Err").Text == text
+//@ pred mIsHTTPErr(err error) := dyntype(err) == typetag("http_api.Err")
+//@ pred mTopicArgOK() := mRPErr == nil && mHasArg(mRP, "topic")
+
+// POST /topic/create?topic=T
+//@ func (s *httpServer) doCreateTopic(w http.ResponseWriter, req *http.Request, ps httprouter.Params) (interface{}, error)
+//@   props C15 C14
+//@   requires[server] mValidS(s) && mServerReq(req)
+//@   ensures[errors-are-http-errors] result1 != nil ==> mIsHTTPErr(result1)
+//@   ensures[invalid-request] mRPErr != nil ==> mIsErr(result1, 400, "INVALID_REQUEST")
+//@   ensures[missing-topic] mRPErr == nil && !mHasArg(mRP, "topic") ==> mIsErr(result1, 400, "MISSING_ARG_TOPIC")
+//@   ensures[invalid-topic] mTopicArgOK() && !validName(mArg(mRP, "topic")) ==> mIsErr(result1, 400, "INVALID_ARG_TOPIC")
+//@   ensures[created] mTopicArgOK() && validName(mArg(mRP, "topic")) ==> result1 == nil && mAddCalls == old(mAddCalls) + 1 &&
+//@        mLastAdd.Category == "topic" && mLastAdd.Key == mArg(mRP, "topic") && mLastAdd.SubKey == ""
+//@   ensures[rejected-changes-nothing] result1 != nil ==> mAddCalls == old(mAddCalls)
+//@   ensures[never-removes] mRemCalls == old(mRemCalls) && mTombCalls == old(mTombCalls)
+//@   modifies mRP, mRPErr, mAddCalls, mLastAdd, mPrevAdd, RegistrationDB.registrationMap, mapstore(map[Registration]ProducerMap), mapstore(ProducerMap)
+// One fact about the pinned name pattern ^[.a-zA-Z0-9_-]+(#ephemeral)?$ : the registry wildcard "*" is not a valid topic or
+// channel name ('*' is outside the character class). Assumed (regexp is trusted, see std.spec).
+//@ axiom mStarNotAName: !validName("*")
+//@ pred mIs400(err error) := dyntype(err) == typetag("http_api.Err") && unbox(err, "http_api.Err").Code == 400
+//@ pred mTopicChanArgsOK() := mRPErr == nil && mHasArg(mRP, "topic") && validName(mArg(mRP, "topic")) && mHasArg(mRP, "channel") && validName(mArg(mRP, "channel"))
+//@ ghostgroup mRP, mRPErr
+//@ ghostgroup mFRTopic, mFRTopicKey, mFRTopicSub, mFRChan, mFRChanKey, mFRChanSub
+//@ ghostgroup mFound, mFoundCat, mFoundKey, mFoundSub
+//@ ghostgroup mKept, mKeptFrom
+//@ ghostgroup mAddCalls, mLastAdd, mPrevAdd
+//@ ghostgroup mRemCalls, mLastRem
+//@ ghostgroup mTombCalls, mLastTomb
+
+// POST /channel/create?topic=T&channel=C : registers the channel AND its topic.
+//@ func (s *httpServer) doCreateChannel(w http.ResponseWriter, req *http.Request, ps httprouter.Params) (interface{}, error)
+//@   props C15 C14
+//@   requires[server] mValidS(s) && mServerReq(req)
+//@   ensures[errors-are-http-errors] result1 != nil ==> mIsHTTPErr(result1)
+//@   ensures[invalid-request] mRPErr != nil ==> mIsErr(result1, 400, "INVALID_REQUEST")
+//@   ensures[bad-args] mRPErr == nil && !mTopicChanArgsOK() ==> mIs400(result1)
+//@   ensures[created] mTopicChanArgsOK() ==> result1 == nil && mAddCalls == old(mAddCalls) + 2 &&
+//@        mPrevAdd.Category == "channel" && mPrevAdd.Key == mArg(mRP, "topic") && mPrevAdd.SubKey == mArg(mRP, "channel") &&
+//@        mLastAdd.Category == "topic" && mLastAdd.Key == mArg(mRP, "topic") && mLastAdd.SubKey == ""
+//@   ensures[rejected-changes-nothing] result1 != nil ==> mAddCalls == old(mAddCalls)
+//@   ensures[never-removes] mRemCalls == old(mRemCalls) && mTombCalls == old(mTombCalls)
+//@   modifies mRP, mAddCalls, RegistrationDB.registrationMap, mapstore(map[Registration]ProducerMap), mapstore(ProducerMap)
+
+// POST /topic/delete?topic=T : removes every channel registration of the topic, then the topic registration.
+//@ func (s *httpServer) doDeleteTopic(w http.ResponseWriter, req *http.Request, ps httprouter.Params) (interface{}, error)
+//@   props C15 C14
+//@   requires[server] mValidS(s) && mServerReq(req)
+//@   ensures[errors-are-http-errors] result1 != nil ==> mIsHTTPErr(result1)
+//@   ensures[invalid-request] mRPErr != nil ==> mIsErr(result1, 400, "INVALID_REQUEST")
+//@   ensures[missing-topic] mRPErr == nil && !mHasArg(mRP, "topic") ==> mIsErr(result1, 400, "MISSING_ARG_TOPIC")
+//@   ensures[accepted] mTopicArgOK() && validName(mArg(mRP, "topic")) ==> result1 == nil
+//@   ensures[looked-up] mTopicArgOK() && result1 == nil ==> mFRChanKey == mArg(mRP, "topic") && mFRChanSub == "*" && mFRTopicKey == mArg(mRP, "topic") && mFRTopicSub == ""
+//@   ensures[one-removal-per-found] mTopicArgOK() && result1 == nil ==> mRemCalls == old(mRemCalls) + len(mFRChan) + len(mFRTopic)
+//@   ensures[last-removed] mTopicArgOK() && result1 == nil && len(mFRTopic) > 0 ==> mLastRem == mFRTopic[len(mFRTopic) - 1]
+//@   ghostparam gi int
+//@   ensures[only-matching] mTopicArgOK() && result1 == nil ==> (forall i int :: {mFRChan[i]} 0 <= i && i < len(mFRChan) ==> matches(mFRChan[i], "channel", mArg(mRP, "topic"), "*")) &&
+//@        (forall i int :: {mFRTopic[i]} 0 <= i && i < len(mFRTopic) ==> matches(mFRTopic[i], "topic", mArg(mRP, "topic"), ""))
+//@   ensures[only-this-topic] mTopicArgOK() && result1 == nil ==> (0 <= gi && gi < len(mFRChan) ==> mFRChan[gi].Key == mArg(mRP, "topic")) && (0 <= gi && gi < len(mFRTopic) ==> mFRTopic[gi].Key == mArg(mRP, "topic"))
+//@   ensures[rejected-changes-nothing] result1 != nil ==> mRemCalls == old(mRemCalls)
+//@   ensures[never-adds] mAddCalls == old(mAddCalls) && mTombCalls == old(mTombCalls)
+//@   modifies mRP, mRemCalls, mFRTopic, RegistrationDB.registrationMap, mapstore(map[Registration]ProducerMap), mapstore(ProducerMap)
+//@   loop 0
+//@     invariant registrations == mFRChan && fresh(registrations) && mFRChanKey == topicName && mFRChanSub == "*" && mRPErr == nil && mRP == reqParams && mArg(mRP, "topic") == topicName && mHasArg(mRP, "topic")
+//@     invariant mRemCalls == old(mRemCalls) + rangeindex + 1 && rangeindex < len(registrations) && mAddCalls == old(mAddCalls) && mTombCalls == old(mTombCalls)
+//@     invariant forall i int :: {mFRChan[i]} 0 <= i && i < len(mFRChan) ==> matches(mFRChan[i], "channel", topicName, "*")
+//@   loop 1
+//@     invariant registrations == mFRTopic && fresh(registrations) && mFRChanKey == topicName && mFRChanSub == "*" && mFRTopicKey == topicName && mFRTopicSub == "" && mRPErr == nil && mRP == reqParams && mArg(mRP, "topic") == topicName && mHasArg(mRP, "topic")
+//@     invariant mRemCalls == old(mRemCalls) + len(mFRChan) + rangeindex + 1 && rangeindex < len(registrations) && mAddCalls == old(mAddCalls) && mTombCalls == old(mTombCalls)
+//@     invariant rangeindex >= 0 ==> mLastRem == registrations[rangeindex]
+//@     invariant forall i int :: {mFRChan[i]} 0 <= i && i < len(mFRChan) ==> matches(mFRChan[i], "channel", topicName, "*")
+//@     invariant forall i int :: {mFRTopic[i]} 0 <= i && i < len(mFRTopic) ==> matches(mFRTopic[i], "topic", topicName, "")
+
+// POST /channel/delete?topic=T&channel=C : 404 iff no such channel registration, else every registration found is removed.
+//@ func (s *httpServer) doDeleteChannel(w http.ResponseWriter, req *http.Request, ps httprouter.Params) (interface{}, error)
+//@   props C15 C14
+//@   requires[server] mValidS(s) && mServerReq(req)
+//@   ensures[errors-are-http-errors] result1 != nil ==> mIsHTTPErr(result1)
+//@   ensures[invalid-request] mRPErr != nil ==> mIsErr(result1, 400, "INVALID_REQUEST")
+//@   ensures[bad-args] mRPErr == nil && !mTopicChanArgsOK() ==> mIs400(result1)
+//@   ensures[looked-up] mTopicChanArgsOK() ==> mFRChanKey == mArg(mRP, "topic") && mFRChanSub == mArg(mRP, "channel")
+//@   ensures[not-found] mTopicChanArgsOK() ==> (mIsErr(result1, 404, "CHANNEL_NOT_FOUND") <==> len(mFRChan) == 0) && (result1 == nil <==> len(mFRChan) > 0)
+//@   ensures[one-removal-per-found] result1 == nil ==> mRemCalls == old(mRemCalls) + len(mFRChan) && mLastRem == mFRChan[len(mFRChan) - 1]
+//@   ensures[only-this-channel] mTopicChanArgsOK() ==> forall i int :: {mFRChan[i]} 0 <= i && i < len(mFRChan) ==> matches(mFRChan[i], "channel", mArg(mRP, "topic"), mArg(mRP, "channel"))
+//@   ensures[rejected-changes-nothing] result1 != nil ==> mRemCalls == old(mRemCalls)
+//@   ensures[never-adds] mAddCalls == old(mAddCalls) && mTombCalls == old(mTombCalls)
+//@   modifies mRP, mRemCalls, mFRTopic, RegistrationDB.registrationMap, mapstore(map[Registration]ProducerMap), mapstore(ProducerMap)
+//@   loop 0
+//@     invariant registrations == mFRChan && fresh(registrations) && len(registrations) > 0 && mFRChanKey == topicName && mFRChanSub == channelName && mRP == reqParams && mTopicChanArgsOK() && mArg(mRP, "topic") == topicName && mArg(mRP, "channel") == channelName
+//@     invariant mRemCalls == old(mRemCalls) + rangeindex + 1 && rangeindex < len(registrations) && mAddCalls == old(mAddCalls) && mTombCalls == old(mTombCalls)
+//@     invariant rangeindex >= 0 ==> mLastRem == registrations[rangeindex]
+//@     invariant forall i int :: {mFRChan[i]} 0 <= i && i < len(mFRChan) ==> matches(mFRChan[i], "channel", topicName, channelName)
+
+// GET /ping, GET /info : constant answers, no registry access.
+//@ func (s *httpServer) pingHandler(w http.ResponseWriter, req *http.Request, ps httprouter.Params) (interface{}, error)
+//@   props C15
+//@   ensures[ok] result1 == nil && dyntype(result0) == typetag("string") && unbox(result0, "string") == "OK"
+//@   modifies
+//@   nochan
+//@ func (s *httpServer) doInfo(w http.ResponseWriter, req *http.Request, ps httprouter.Params) (interface{}, error)
+//@   props C15
+//@   ensures[ok] result1 == nil && result0 != nil
+//@   modifies
+//@   nochan
+
+// The JSON document of an answer: a map[string]interface{}; mDoc(x) is that map, mStrs / mInfos / mNodes the typed payload of an entry.
+//@ pred mIsDoc(x interface{}) := dyntype(x) == typetag("map[string]interface{}") && unbox(x, "map[string]interface{}") != nil
+
+// GET /topics : the keys of every "topic" registration (at the release of the read lock inside FindRegistrations).
+//@ func (s *httpServer) doTopics(w http.ResponseWriter, req *http.Request, ps httprouter.Params) (interface{}, error)
+//@   props C14 C15
+//@   requires[server] mValidS(s)
+//@   ensures[ok] result1 == nil && mIsDoc(result0) && has(unbox(result0, "map[string]interface{}"), "topics") && dyntype(unbox(result0, "map[string]interface{}")["topics"]) == typetag("[]string")
+//@   ensures[query] mFRTopicKey == "*" && mFRTopicSub == ""
+//@   ensures[topics] len(unbox(unbox(result0, "map[string]interface{}")["topics"], "[]string")) == len(mFRTopic) &&
+//@        forall i int :: {mFRTopic[i]} 0 <= i && i < len(mFRTopic) ==> unbox(unbox(result0, "map[string]interface{}")["topics"], "[]string")[i] == mFRTopic[i].Key
+//@   ensures[registry-untouched] mAddCalls == old(mAddCalls) && mRemCalls == old(mRemCalls) && mTombCalls == old(mTombCalls)
+//@   modifies mFRTopic, RegistrationDB.registrationMap, mapstore(map[Registration]ProducerMap), mapstore(ProducerMap)
+
+// GET /channels?topic=T : the subkeys of the "channel" registrations of T.
+//@ func (s *httpServer) doChannels(w http.ResponseWriter, req *http.Request, ps httprouter.Params) (interface{}, error)
+//@   props C14 C15
+//@   requires[server] mValidS(s) && mServerReq(req)
+//@   ghostparam gi int
+//@   ensures[errors-are-http-errors] result1 != nil ==> mIsHTTPErr(result1)
+//@   ensures[invalid-request] mRPErr != nil ==> mIsErr(result1, 400, "INVALID_REQUEST")
+//@   ensures[missing-topic] mRPErr == nil && !mHasArg(mRP, "topic") ==> mIsErr(result1, 400, "MISSING_ARG_TOPIC")
+//@   ensures[accepted] mTopicArgOK() && validName(mArg(mRP, "topic")) ==> result1 == nil
+//@   ensures[query] result1 == nil ==> mTopicArgOK() && mFRChanKey == mArg(mRP, "topic") && mFRChanSub == "*"
+//@   ensures[doc] result1 == nil ==> mIsDoc(result0) && has(unbox(result0, "map[string]interface{}"), "channels") && dyntype(unbox(result0, "map[string]interface{}")["channels"]) == typetag("[]string")
+//@   ensures[channels] result1 == nil ==> len(unbox(unbox(result0, "map[string]interface{}")["channels"], "[]string")) == len(mFRChan) &&
+//@        forall i int :: {mFRChan[i]} 0 <= i && i < len(mFRChan) ==> unbox(unbox(result0, "map[string]interface{}")["channels"], "[]string")[i] == mFRChan[i].SubKey
+//@   ensures[only-this-topic] result1 == nil && 0 <= gi && gi < len(mFRChan) ==> mFRChan[gi].Category == "channel" && mFRChan[gi].Key == mArg(mRP, "topic")
+//@   ensures[registry-untouched] mAddCalls == old(mAddCalls) && mRemCalls == old(mRemCalls) && mTombCalls == old(mTombCalls)
+//@   modifies mRP, mFRTopic, RegistrationDB.registrationMap, mapstore(map[Registration]ProducerMap), mapstore(ProducerMap)
+
+// GET /lookup?topic=T : 404 iff T has no "topic" registration; channels = subkeys of T's channel registrations; producers =
+// the PeerInfo of those producers registered for T that pinged within InactiveProducerTimeout and are not tombstoned for T
+// (clock readings as in FilterByActive: T0 = lastNow ... mClock).
+//@ func (s *httpServer) doLookup(w http.ResponseWriter, req *http.Request, ps httprouter.Params) (interface{}, error)
+//@   props C14 C15
+//@   requires[server] mValidS(s) && mServerReq(req)
+//@   ghostparam gi int
+//@   ensures[errors-are-http-errors] result1 != nil ==> mIsHTTPErr(result1)
+//@   ensures[invalid-request] mRPErr != nil ==> mIsErr(result1, 400, "INVALID_REQUEST")
+//@   ensures[missing-topic] mRPErr == nil && !mHasArg(mRP, "topic") ==> mIsErr(result1, 400, "MISSING_ARG_TOPIC")
+//@   ensures[not-found-iff-absent] mTopicArgOK() && validName(mArg(mRP, "topic")) ==> mFRTopicKey == mArg(mRP, "topic") && mFRTopicSub == "" &&
+//@        (mIsErr(result1, 404, "TOPIC_NOT_FOUND") <==> len(mFRTopic) == 0) && (result1 == nil <==> len(mFRTopic) > 0)
+//@   ensures[queries] result1 == nil ==> mTopicArgOK() && mFRTopicKey == mArg(mRP, "topic") && mFRTopicSub == "" && len(mFRTopic) > 0 &&
+//@        mFRChanKey == mArg(mRP, "topic") && mFRChanSub == "*" &&
+//@        mFoundCat == "topic" && mFoundKey == mArg(mRP, "topic") && mFoundSub == "" && mKeptFrom == mFound
+//@   ensures[doc] result1 == nil ==> mIsDoc(result0) && has(unbox(result0, "map[string]interface{}"), "channels") && dyntype(unbox(result0, "map[string]interface{}")["channels"]) == typetag("[]string") &&
+//@        has(unbox(result0, "map[string]interface{}"), "producers") && dyntype(unbox(result0, "map[string]interface{}")["producers"]) == typetag("[]*PeerInfo")
+//@   ensures[channels] result1 == nil ==> len(unbox(unbox(result0, "map[string]interface{}")["channels"], "[]string")) == len(mFRChan) &&
+//@        forall i int :: {mFRChan[i]} 0 <= i && i < len(mFRChan) ==> unbox(unbox(result0, "map[string]interface{}")["channels"], "[]string")[i] == mFRChan[i].SubKey
+//@   ensures[producers] result1 == nil ==> len(unbox(unbox(result0, "map[string]interface{}")["producers"], "[]*PeerInfo")) == len(mKept) &&
+//@        forall i int :: {mKept[i]} 0 <= i && i < len(mKept) ==> unbox(unbox(result0, "map[string]interface{}")["producers"], "[]*PeerInfo")[i] == mKept[i].peerInfo
+//@   ensures[producers-are-live] result1 == nil ==> forall j int :: {mKept[j]} 0 <= j && j < len(mKept) ==> mKept[j] != nil && mKept[j].peerInfo != nil &&
+//@        mPinged(mKept[j], unixNano(lastNow), s.nsqlookupd.opts.InactiveProducerTimeout) && !mTombAt(mKept[j], mClock, s.nsqlookupd.opts.TombstoneLifetime) &&
+//@        (exists i int :: {mFound[i]} 0 <= i && i < len(mFound) && mFound[i] == mKept[j])
+//@   ensures[live-are-listed] result1 == nil ==> forall i int :: {mFound[i]} 0 <= i && i < len(mFound) &&
+//@        mPinged(mFound[i], unixNano(lastNow), s.nsqlookupd.opts.InactiveProducerTimeout) && !mTombAt(mFound[i], unixNano(lastNow), s.nsqlookupd.opts.TombstoneLifetime) ==>
+//@        (exists j int :: {mKept[j]} 0 <= j && j < len(mKept) && mKept[j] == mFound[i])
+//@   ensures[only-this-topic] result1 == nil && 0 <= gi && gi < len(mFRChan) ==> mFRChan[gi].Category == "channel" && mFRChan[gi].Key == mArg(mRP, "topic")
+//@   ensures[registry-untouched] mAddCalls == old(mAddCalls) && mRemCalls == old(mRemCalls) && mTombCalls == old(mTombCalls)
+//@   modifies mRP, mFRTopic, mFound, mKept, lastNow, mClock, RegistrationDB.registrationMap, mapstore(map[Registration]ProducerMap), mapstore(ProducerMap)
+
+// POST /topic/tombstone?topic=T&node=N : only producers registered for T are tombstoned (those whose "addr:httpport" is N).
+//@ func (s *httpServer) doTombstoneTopicProducer(w http.ResponseWriter, req *http.Request, ps httprouter.Params) (interface{}, error)
+//@   props C14 C15
+//@   requires[server] mValidS(s) && mServerReq(req)
+//@   ghostparam gp *Producer
+//@   ensures[errors-are-http-errors] result1 != nil ==> mIsHTTPErr(result1)
+//@   ensures[invalid-request] mRPErr != nil ==> mIsErr(result1, 400, "INVALID_REQUEST")
+//@   ensures[missing-topic] mRPErr == nil && !mHasArg(mRP, "topic") ==> mIsErr(result1, 400, "MISSING_ARG_TOPIC")
+//@   ensures[missing-node] mTopicArgOK() && validName(mArg(mRP, "topic")) && !mHasArg(mRP, "node") ==> mIsErr(result1, 400, "MISSING_ARG_NODE")
+//@   ensures[bad-args] mRPErr == nil && !(mHasArg(mRP, "topic") && mHasArg(mRP, "node")) ==> mIs400(result1)
+//@   ensures[accepted] mTopicArgOK() && mHasArg(mRP, "node") && validName(mArg(mRP, "topic")) ==> result1 == nil
+//@   ensures[query] result1 == nil ==> mTopicArgOK() && mFoundCat == "topic" && mFoundKey == mArg(mRP, "topic") && mFoundSub == ""
+//@   ensures[at-most-the-found] result1 == nil ==> mTombCalls - old(mTombCalls) <= len(mFound) && mTombCalls >= old(mTombCalls)
+//@   ensures[tombstoned-was-found] result1 == nil && mTombCalls > old(mTombCalls) ==> (exists j int :: {mFound[j]} 0 <= j && j < len(mFound) && mFound[j] == mLastTomb)
+//@   ensures[others-untouched] (forall j int :: {mFound[j]} 0 <= j && j < len(mFound) ==> mFound[j] != gp) ==> gp.tombstoned == old(gp.tombstoned) && gp.tombstonedAt == old(gp.tombstonedAt)
+//@   ensures[rejected-changes-nothing] result1 != nil ==> mTombCalls == old(mTombCalls) && gp.tombstoned == old(gp.tombstoned)
+//@   ensures[never-adds-or-removes] mAddCalls == old(mAddCalls) && mRemCalls == old(mRemCalls)
+//@   modifies mRP, mFound, mTombCalls, lastNow, Producer.tombstoned, Producer.tombstonedAt, RegistrationDB.registrationMap, mapstore(map[Registration]ProducerMap), mapstore(ProducerMap)
+//@   loop 0
+//@     invariant producers == mFound && mValidProds(producers) && mRPErr == nil && mRP == reqParams && mHasArg(mRP, "topic") && mArg(mRP, "topic") == topicName
+//@     invariant mFoundCat == "topic" && mFoundKey == topicName && mFoundSub == "" && mAddCalls == old(mAddCalls) && mRemCalls == old(mRemCalls)
+//@     invariant mTombCalls >= old(mTombCalls) && mTombCalls - old(mTombCalls) <= rangeindex + 1 && rangeindex < len(producers)
+//@     invariant mTombCalls > old(mTombCalls) ==> (exists j int :: {mFound[j]} 0 <= j && j < len(mFound) && mFound[j] == mLastTomb)
+//@     invariant (forall j int :: {mFound[j]} 0 <= j && j < len(mFound) ==> mFound[j] != gp) ==> gp.tombstoned == old(gp.tombstoned) && gp.tombstonedAt == old(gp.tombstonedAt)
+
+// GET /nodes : one node per active producer of the "client" registration (tombstoned ones included: lifetime 0); per node the
+// tombstone flags are aligned with the topic list (same length), so neither this handler nor a client indexing Tombstones by
+// topic position can run out of range. (That each node carries the identity of producer k: solver timeouts, see NOTES.)
+//@ pred mNodeOK(n *node) := n != nil && len(n.Tombstones) == len(n.Topics)
+//@ pred mCacheOK(m map[string]Producers) := forall t2 string :: {m[t2]} has(m, t2) ==> mValidProds(m[t2])
+//@ func (s *httpServer) doNodes(w http.ResponseWriter, req *http.Request, ps httprouter.Params) (interface{}, error)
+//@   props C14 C15
+//@   requires[server] mValidS(s)
+//@   ensures[ok] result1 == nil && mIsDoc(result0) && has(unbox(result0, "map[string]interface{}"), "producers") && dyntype(unbox(result0, "map[string]interface{}")["producers"]) == typetag("[]*node")
+//@   ensures[one-node-per-active-producer] len(unbox(unbox(result0, "map[string]interface{}")["producers"], "[]*node")) == len(mKept) &&
+//@        forall k int :: {unbox(unbox(result0, "map[string]interface{}")["producers"], "[]*node")[k]} 0 <= k && k < len(mKept) ==> mNodeOK(unbox(unbox(result0, "map[string]interface{}")["producers"], "[]*node")[k])
+//@   ensures[registry-untouched] mAddCalls == old(mAddCalls) && mRemCalls == old(mRemCalls) && mTombCalls == old(mTombCalls)
+//@   modifies mFound, mKept, lastNow, mClock, lookedUpID, lookedUpLen, removedSinceLookup, RegistrationDB.registrationMap, mapstore(map[Registration]ProducerMap), mapstore(ProducerMap)
+//@   loop 0
+//@     invariant producers == mKept && mValidProds(producers) && fresh(nodes) && len(nodes) == len(producers) && rangeindex < len(producers)
+//@     invariant topicProducersMap != nil && fresh(topicProducersMap) && mCacheOK(topicProducersMap)
+//@     invariant mAddCalls == old(mAddCalls) && mRemCalls == old(mRemCalls) && mTombCalls == old(mTombCalls)
+//@     invariant[aligned] forall k int :: {nodes[k]} 0 <= k && k <= rangeindex ==> mNodeOK(nodes[k])
+//@   loop 1
+//@     invariant producers == mKept && mValidProds(producers) && fresh(nodes) && len(nodes) == len(producers) && 0 <= i && i < len(producers) && p == producers[i]
+//@     invariant topicProducersMap != nil && fresh(topicProducersMap) && mCacheOK(topicProducersMap)
+//@     invariant mAddCalls == old(mAddCalls) && mRemCalls == old(mRemCalls) && mTombCalls == old(mTombCalls)
+//@     invariant forall k int :: {nodes[k]} 0 <= k && k < i ==> mNodeOK(nodes[k])
+//@     invariant fresh(tombstones) && len(tombstones) == len(topics) && rangeindex < len(topics)
+//@   loop 2
+//@     invariant producers == mKept && mValidProds(producers) && fresh(nodes) && len(nodes) == len(producers) && 0 <= i && i < len(producers) && p == producers[i]
+//@     invariant topicProducersMap != nil && fresh(topicProducersMap) && mCacheOK(topicProducersMap)
+//@     invariant mAddCalls == old(mAddCalls) && mRemCalls == old(mRemCalls) && mTombCalls == old(mTombCalls)
+//@     invariant forall k int :: {nodes[k]} 0 <= k && k < i ==> mNodeOK(nodes[k])
+//@     invariant fresh(tombstones) && len(tombstones) == len(topics) && 0 <= j && j < len(topics)
+//@     invariant mValidProds(topicProducers)
